@@ -21,6 +21,7 @@ type Ev struct {
 	Ret    int64
 	Thread int    // -1 = sequential prefix/suffix
 	Parent string // for pseudo-ops: the call they were decomposed from
+	CBAmbig  bool    // a SetEvictedCallback overlaps this call: it may have used the callback in force before or after
 	DefCands []int64 // default expirations set by SetDefaultExpiration calls overlapping this call (it may have read any of them)
 	Nows   []int64 // ticking-clock mode: the instants the call read (liveness by the first, stamping by the last)
 }
@@ -157,10 +158,23 @@ func (s *searcher) dfs(st *model.M, mask uint64, depth int) bool {
 				}
 			}
 		}
+		if e.CBAmbig {
+			base := variants
+			for _, b := range base {
+				c := b.Clone()
+				c.CB = !c.CB
+				c.CBFlip = true
+				variants = append(variants, c)
+			}
+		}
 		for _, c := range variants {
 			c.At(e.Nows)
 			err := c.Step(&e.Op, e.Res)
 			c.DOvr = nil
+			if c.CBFlip {
+				c.CB = !c.CB
+				c.CBFlip = false
+			}
 			if err != nil {
 				if depth >= s.best {
 					errs = append(errs, fmt.Sprintf("#%d %s: %v", i, e.Op.String(), err))
